@@ -314,4 +314,20 @@ PLAN = {
             {"name": "native", "flavour": "native", "shards": 4, "shards_thorough": 16, "timeout": 900},
         ],
     },
+    "C11": {
+        "level": "exploration",
+        "rule": "per scenario: a fresh exporter on a loopback port with buffer_size in {None, 1, 4, 64, 1024}; 3 metadata entries described "
+                "first (logical sync: a throw-away client that received all of them); 1-4 clients with scripted behaviours (read; stop "
+                "reading for two rounds then resume; close; reset with SO_LINGER 0; connect late) and 1-3 emitter threads tagging every "
+                "metric (emitter, seq) across counter/gauge/histogram operations; 4-9 rounds of bursts kept within half the buffer, the "
+                "next round only after every open reading client received the previous one (ack-based pacing). Every captured byte stream "
+                "is decoded by a hand-written varint/protobuf decoder of event.proto: whole frames only, metadata first and complete, "
+                "content intact, per-emitter order, no duplicates, no gaps for reading clients; after every round the exporter's "
+                "(client_count, should_send) is compared with the open accepted harness clients. distinct = (scenario, bytes) hash.",
+        "assumptions": ["a burst not acknowledged within the 8 s watchdog without logical evidence of loss (gap / wrong accounting) is inconclusive",
+                        "descriptions are paced (4 ms apart) for buffers <= 4 because they share the bounded channel with metrics"],
+        "legs": [
+            {"name": "native", "flavour": "native", "shards": 4, "shards_thorough": 16, "timeout": 1800},
+        ],
+    },
 }
